@@ -159,6 +159,8 @@ def run(ctx):
     # ---- R20.8 an empty frame never turns into "read whatever arrives next" (it would block holding the lock or swallow later PDUs) ----
     import c13
     ctx.include(c13.run, ('R13.4',), 'R20.8')
+    # a sized link read waits for all of its bytes whatever the record / segment boundaries (rule R13.1): a PDU split over two TLS records is not truncated
+    ctx.include(c13.run, ('R13.1',), 'R20.6')
 
     # ---- R20.9 silence is not the end of the session: the readiness wait has no timeout whose expiry would leave the loop ---------
     wf = ctx.body('mstsc_rs::wait_for_fd')
